@@ -88,3 +88,50 @@ Definition check (c : N * list (hop * obs)) : bool :=
    worktree with the fix reverted (see props/C19.json, sensitivity), not by the driver *)
 Definition check_original (c : N * list (hop * obs)) : bool :=
   let '(U, steps) := c in run_check false U (init genesis) steps.
+
+(* ---- gated schedules (harness: a parked AddGroup vs competing calls) ----
+   case = (U, prefix run sequentially, the parked group, competing calls, order, observation):
+   the parked AddGroup(x) runs Has(id) and enters CheckGroup; every competing call runs to completion
+   in its own thread (a fork switch as one thread that stops at the first refusal); then x finishes.
+   order = false: as described (the competing calls did not wait for x);
+   order = true : the competing calls were seen to wait until x had returned, so x runs first.
+   The observation is taken at the end; ret = result of x, crets = results of the competing calls. *)
+Definition thread_of (o : hop) : thread :=
+  match o with
+  | HFork h gs => mkT None (RemoveFrom h :: map (fun g => let '(i, p, q) := g in Add (mkG i p q 0)) gs) true []
+  | _ => mkT None [op_of o] false []
+  end.
+
+Fixpoint reps (n : nat) (i : nat) : list nat := match n with O => [] | S k => i :: reps k i end.
+
+(* enough moves for thread i to return: 4 per call *)
+Definition moves (t : thread) : nat := 4 * length (prog t) + 1.
+
+Fixpoint sched_all (ts : list thread) (i : nat) : list nat :=
+  match ts with [] => [] | t :: r => reps (moves t) i ++ sched_all r (S i) end.
+
+Definition run_prefix (steps : list hop) : state :=
+  fst (run true genesis (init genesis) (map op_of steps)).
+
+(* a competing fork switch reports true/false like triggerOnChain: 0 if no call of the thread failed *)
+Definition thread_ret (o : hop) (t : thread) : N :=
+  match o with
+  | HFork _ _ => match rev (rets t) with
+                 | 1 :: _ => 1                              (* no group at the ancestor height *)
+                 | l => if forallb (fun c => c =? 0) l then 0 else 2
+                 end
+  | _ => hd 99 (rets t)
+  end.
+
+Definition check_sched (c : N * list hop * (N * N * N) * list hop * bool * obs * list N) : bool :=
+  let '(U, pre, x, comp, xfirst, ob, crets) := c in
+  let '(xi, xp, xq) := x in
+  let s0 := run_prefix pre in
+  let tx := mkT None [Add (mkG xi xp xq 0)] false [] in
+  let ts := tx :: map thread_of comp in
+  let sched := if xfirst then reps 4 0%nat ++ sched_all (map thread_of comp) 1
+               else reps 2 0%nat ++ sched_all (map thread_of comp) 1 ++ reps 2 0%nat in
+  let '(s', ts') := crun true genesis s0 ts sched in
+  let xret := match ts' with t :: _ => hd 99 (rets t) | [] => 99 end in
+  obs_eqb (observe U xret s') ob && spec_okb U s' &&
+  list_eqb N.eqb (map (fun p => thread_ret (fst p) (snd p)) (combine comp (tl ts'))) crets.
